@@ -208,8 +208,22 @@ func runEvmTx(r *hx.R, n int, w *hx.W, _ []string) error {
 				}
 				next := map[string]uint64{}
 				var built []*evm.MsgEthereumTx
+				// aimed: two messages of one sender that each pass the per-message balance check of the ante handler, while the second
+				// one's value exceeds what is left once the first has executed (the EVM refuses the transfer at run time)
+				drain := r.Chance(1, 10)
+				var drainFrom evmtest.EthPrivKeyAcc
+				var drainVal *big.Int
+				if drain {
+					nm = 2 + r.Pick(2)
+					drainFrom = accs[r.Pick(3)]
+					bal := a.BankKeeper.GetBalance(ctx, drainFrom.NibiruAddr, "unibi").Amount.BigInt()
+					drainVal = new(big.Int).Mul(new(big.Int).Div(new(big.Int).Mul(bal, big.NewInt(r.Range(51, 90))), big.NewInt(100)), e12)
+				}
 				for j := 0; j < nm; j++ {
 					from := accs[r.Pick(3)]
+					if drain {
+						from = drainFrom
+					}
 					key := strings.ToLower(from.EthAddr.Hex())
 					if _, ok := next[key]; !ok {
 						next[key] = a.EvmKeeper.GetAccNonce(ctx, from.EthAddr)
@@ -264,11 +278,21 @@ func runEvmTx(r *hx.R, n int, w *hx.W, _ []string) error {
 					default:
 						sp.to = &toAcc
 					}
-					if r.Chance(1, 12) {
+					if drain && j < 2 {
+						sp = ethMsgSpec{from: from, nonce: next[key], gasLimit: 21000, price: new(big.Int).Set(e12), value: new(big.Int).Set(drainVal), kind: "transfer"}
+						sp.to = &toAcc
+						if toAcc == from.EthAddr {
+							sp.to = &accs[3].EthAddr
+						}
+						if j == 1 && r.Chance(1, 2) {
+							sp.to, sp.gasLimit, sp.data, sp.kind = nil, 300_000, easm.Deployer(loggerRuntime()), "create"
+						}
+					} else if r.Chance(1, 12) {
 						sp.badSig = 1 + r.Pick(2)
 					}
-					if r.Chance(1, 25) { // more than the balance
-						sp.value = new(big.Int).Mul(e12, big.NewInt(9_000_000_000_000))
+					if r.Chance(1, 25) && sp.kind == "transfer" { // more than the balance: refused by the ante handler
+						bal := a.BankKeeper.GetBalance(ctx, from.NibiruAddr, "unibi").Amount.BigInt()
+						sp.value = new(big.Int).Mul(e12, new(big.Int).Add(bal, big.NewInt(r.Range(0, 1000))))
 					}
 					m, err := sp.build()
 					if err != nil {
